@@ -290,38 +290,45 @@ structure SearchState where
   last : Item := []
 deriving Repr
 
-/-- the body of the `for pos := range sortedKeys` loop; `none` = `break` -/
+/-- `getPrimaryKey`: on an index the primary key comes from the next sorted reference -/
+def getPrimaryKey (onIndex : Bool) (st : SearchState) (k : Bytes) : Option Bytes × SearchState :=
+  if onIndex then
+    match st.refs with
+    | (pk, ik) :: rest => (if k == ik then some pk else none, { st with refs := rest })
+    | [] => (none, st)
+  else (some k, st)
+
+/-- `prepareSearch`: whether this position is past the exclusive start key -/
+def prepareSearch (start : SearchStart) (onIndex forward : Bool) (st : SearchState) (k pk : Bytes) :
+    Bool × SearchState :=
+  if st.started then (true, st)
+  else if isAfter start onIndex k pk forward then (true, { st with started := true })
+  else if pk == start.key then (false, { st with started := true })
+  else (false, st)
+
+/-- `getMatchedItemAndCount` and the bookkeeping after it; the flag is `break` -/
+def processItem (t : Table) (m : Matcher) (q : Query) (st : SearchState) (pk : Bytes) :
+    Except String (SearchState × Bool) := do
+  let stored := alookup pk t.data
+  let item := stored.getD []
+  let (ty, matched0) ← matchKey m q item
+  let matched := if stored.isSome && !(st.started && matched0) then false else true
+  let st := { st with
+    items := if matched then item :: st.items else st.items,
+    scanned := st.scanned + 1,
+    count := if shouldCount ty matched then st.count + 1 else st.count,
+    last := item }
+  pure (st, q.limit != 0 && q.limit == st.count)
+
+/-- the body of the `for pos := range sortedKeys` loop; the flag is `break` -/
 def searchStep (t : Table) (m : Matcher) (q : Query) (onIndex : Bool) (start : SearchStart)
     (st : SearchState) (k : Bytes) : Except String (SearchState × Bool) :=
-  -- getPrimaryKey
-  let (pkOk, st) : (Option Bytes × SearchState) :=
-    if onIndex then
-      match st.refs with
-      | (pk, ik) :: rest => (if k == ik then some pk else none, { st with refs := rest })
-      | [] => (none, st)
-    else (some k, st)
-  match pkOk with
-  | none => pure ({ st with scanned := st.scanned + 1 }, false)
-  | some pk =>
-    -- prepareSearch
-    let (go, st) : (Bool × SearchState) :=
-      if st.started then (true, st)
-      else if isAfter start onIndex k pk q.forward then (true, { st with started := true })
-      else if pk == start.key then (false, { st with started := true })
-      else (false, st)
-    if !go then pure ({ st with scanned := st.scanned + 1 }, false)
-    else do
-      -- getMatchedItemAndCount
-      let stored := alookup pk t.data
-      let item := stored.getD []
-      let (ty, matched0) ← matchKey m q item
-      let matched := if stored.isSome && !(st.started && matched0) then false else true
-      let st := { st with
-        items := if matched then item :: st.items else st.items,
-        scanned := st.scanned + 1,
-        count := if shouldCount ty matched then st.count + 1 else st.count,
-        last := item }
-      pure (st, q.limit != 0 && q.limit == st.count)
+  match getPrimaryKey onIndex st k with
+  | (none, st) => pure ({ st with scanned := st.scanned + 1 }, false)
+  | (some pk, st) =>
+    match prepareSearch start onIndex q.forward st k pk with
+    | (false, st) => pure ({ st with scanned := st.scanned + 1 }, false)
+    | (true, st) => processItem t m q st pk
 
 def searchLoop (t : Table) (m : Matcher) (q : Query) (onIndex : Bool) (start : SearchStart) :
     SearchState → List Bytes → Except String SearchState
